@@ -726,6 +726,116 @@ theorem multifield_vdot [CommRing K] (conj : K → K) (a b : MFld K) :
     · simp only [ne_eq, hd, not_false_eq_true, if_true] at h
       cases h
 
+/-- MultiField.vdot is conjugate-linear in the first argument, linear in the second and Hermitian (leaf structure of
+    the operands must agree, as the identity check of the MultiDomains guarantees) -/
+theorem multifield_vdot_conj_linear [CommRing K] (conj : K →+* K) (hinv : ∀ z, conj (conj z) = z) (α : K)
+    (a b c : MFld K)
+    (hab : List.Forall₂ (fun x y : String × Fld K => y.2.subs = x.2.subs) a.leaves b.leaves)
+    (hac : List.Forall₂ (fun x y : String × Fld K => y.2.subs = x.2.subs) a.leaves c.leaves) :
+    mvdVal conj (mlin α a b) c = conj α * mvdVal conj a c + mvdVal conj b c ∧
+    mvdVal conj c (mlin α a b) = α * mvdVal conj c a + mvdVal conj c b ∧
+    mvdVal conj a c = conj (mvdVal conj c a) := by
+  obtain ⟨da, la⟩ := a
+  obtain ⟨db, lb⟩ := b
+  obtain ⟨dc, lc⟩ := c
+  simp only [mvdVal, mlin] at *
+  induction hab generalizing lc with
+  | nil => simp [sumOver]
+  | @cons x y ta tb hxy _ ih =>
+    cases hac with
+    | @cons _ z _ tc hxz htc =>
+      obtain ⟨ih1, ih2, ih3⟩ := ih tc htc
+      have sy : y.2.sizes = x.2.sizes := by simp only [Fld.sizes, hxy]
+      have sz : z.2.sizes = x.2.sizes := by simp only [Fld.sizes, hxz]
+      simp only [List.zipWith_cons_cons, List.zip_cons_cons, sumOver, Fld.sizes] at ih1 ih2 ih3 ⊢
+      refine ⟨?_, ?_, ?_⟩
+      · rw [ih1, leaf_vd_lin_left conj α]
+        simp only [Fld.sizes, hxy] at sy ⊢
+        ring
+      · rw [ih2]
+        simp only [hxz]
+        rw [leaf_vd_lin_right conj α]
+        ring
+      · rw [map_add, ← ih3]
+        congr 1
+        rw [sumOver_hom conj (map_zero conj) (map_add conj)]
+        simp only [hxz]
+        apply sumOver_congr
+        intro i _
+        simp only [map_mul, hinv]
+        ring
+
+/-! ### unite / flexible_addsub -/
+
+/-- Field.unite is `+`; Field.flexible_addsub is `-` or `+` (both through Field._binary_op, hence with the identity
+    check). MultiField.flexible_addsub / unite: on the same MultiDomain it is the key-wise `-`/`+`; on different
+    MultiDomains the result has, key by key, the combined leaf where both operands have the key (the Field operation,
+    which checks the leaf domains), the left leaf where only the left has it, and the (negated) right leaf where only
+    the right has it — and no other keys. -/
+theorem flexible_addsub_spec (add sub : Fld K → Fld K → Except String (Fld K)) (negf : Fld K → Fld K)
+    (a b r : MFld K) (neg : Bool) (hkb : (b.leaves.map (·.1)).Nodup)
+    (h : mflex add sub negf a b neg = .ok r) :
+    (a.dom = b.dom → mbinop (if neg then sub else add) a b = .ok r) ∧
+    (a.dom ≠ b.dom → ∀ q,
+      match lookupLeaf q a.leaves, lookupLeaf q b.leaves with
+      | some x, some y => ∃ z, (if neg then sub else add) x y = .ok z ∧ lookupLeaf q r.leaves = some z
+      | some x, none => lookupLeaf q r.leaves = some x
+      | none, some y => lookupLeaf q r.leaves = some ((if neg then negf else id) y)
+      | none, none => lookupLeaf q r.leaves = none) := by
+  unfold mflex at h
+  constructor
+  · intro hd; simpa [hd] using h
+  · intro hd q
+    simp only [hd, if_false] at h
+    cases hl : mflexLoop (if neg then sub else add) (if neg then negf else id) a.leaves b.leaves with
+    | error e => simp only [hl] at h; cases h
+    | ok l =>
+      simp only [hl, Except.ok.injEq] at h
+      subst h
+      exact mflexLoop_spec _ _ b.leaves a.leaves l hkb hl q
+
+example :
+    let E : ElemOps Rat := ⟨fun a b => a < b, fun a b => a ≤ b, fun a b => ((a / b).floor : Int),
+      fun b => b.num.toNat, fun b => b < 0, fun b => b.den != 1 || b < 0, id, id, fun _ => 0⟩
+    let f : Fld Rat := ⟨0, [], 2, fun _ => 3⟩
+    let g : Fld Rat := ⟨0, [], 2, fun _ => 5⟩
+    (match mflex (fieldBin E .add false) (fieldBin E .sub false) (unop (fun x => -x) id)
+        ⟨1, [("a", f), ("c", f)]⟩ ⟨2, [("b", g), ("c", g)]⟩ true with
+      | .ok r => r.leaves.map (fun kv => (kv.1, kv.2.val [])) | .error _ => []) = [("a", 3), ("b", -5), ("c", -2)] := by
+  decide +kernel
+
+/-! ### norms of a Field -/
+
+/-- Field.norm(ord) for ord = 1, 2, ∞ on a linearly ordered field with an absolute value `ab ≥ 0`:
+    `norm(2)² = Σ|x_i|² = ⟨x, x⟩` (the dot product of the field with itself); `norm(∞)` is the largest `|x_i|`
+    (an upper bound that is attained); `norm(1) = Σ|x_i| ≥ 0` and satisfies the triangle inequality whenever `ab` does. -/
+theorem field_norm [Field K] [LinearOrder K] [IsStrictOrderedRing K] (conj : K → K) (ab nsq : K → K) (f g : Fld K)
+    (hnsq : ∀ z, nsq z = conj z * z) (hab : ∀ z, 0 ≤ ab z) :
+    sVdot conj f f = .ok (norm2Sq nsq f) ∧
+    (∀ i ∈ allIdx f.sizes, ab (f.val i) ≤ normInf max ab f) ∧
+    (allIdx f.sizes ≠ [] → ∃ i ∈ allIdx f.sizes, normInf max ab f = ab (f.val i)) ∧
+    0 ≤ norm1 ab f ∧
+    ((∀ x y, ab (x + y) ≤ ab x + ab y) → g.subs = f.subs →
+      norm1 ab { f with val := fun i => f.val i + g.val i } ≤ norm1 ab f + norm1 ab g) := by
+  refine ⟨?_, ?_, ?_, ?_, ?_⟩
+  · simp only [sVdot, ne_eq, not_true_eq_false, if_false, norm2Sq, hnsq]
+  · intro i hi
+    exact le_maxOver (allIdx f.sizes) (fun i => ab (f.val i)) i hi
+  · intro hne
+    exact maxOver_attained (allIdx f.sizes) (fun i => ab (f.val i)) (fun _ _ => hab _) hne
+  · exact sumOver_nonneg _ _ (fun _ _ => hab _)
+  · intro htri hs
+    have hsz : g.sizes = f.sizes := by simp only [Fld.sizes, hs]
+    simp only [norm1, Fld.sizes] at *
+    rw [hs, ← sumOver_add]
+    exact sumOver_le_sumOver _ _ _ (fun i _ => htri _ _)
+
+example :
+    let f : Fld Rat := ⟨0, [⟨[2], .none, none⟩], 2, fun i => if i.headD 0 = 0 then 3 else -4⟩
+    (norm1 (fun z => if z < 0 then -z else z) f, norm2Sq (fun z => z * z) f,
+     normInf (fun x y => if x < y then y else x) (fun z => if z < 0 then -z else z) f) = (7, 25, 4) := by
+  decide +kernel
+
 /-! ### the theorems apply to what the driver executes
   `CRat` (exact complex rationals) with the core instances of Model/Field.lean is a field (Lemmas/FieldCRat.lean) and
   `CRat.conj` a ring involution; below the Mathlib instance is switched off, so `weight`, `integrate`, … are
